@@ -92,7 +92,8 @@ class Tree:
             used = set()
             text = shell
             if depth == 0:
-                text += "export v1 := 'one'\nexport var-2 := 'two'\n"
+                # (private variables - underscore name or [private] - can be overridden like any other)
+                text += "export v1 := 'one'\nexport var-2 := 'two'\nexport _pv := 'three'\n[private]\nexport pv2 := 'four'\n"
             submods = []
             if depth == 0 and rng.random() < 0.7:
                 submods.append("m")
@@ -146,7 +147,7 @@ class Tree:
                     "default": recs[0][1] if recs else None, "hasRecipes": bool(recs)}
 
         self.model = module("", 0)
-        self.variables = ["v1", "var-2"]
+        self.variables = ["v1", "var-2", "_pv", "pv2"]
 
     def write(self, d):
         for f, t in self.files.items():
@@ -155,7 +156,7 @@ class Tree:
 
 WORDS = ["r1", "r2", "r3", "build", "m", "n", "x", "al", "ald", "ald2", "m::ald", "a", "b", "", "a=b", "=x", "v1=ov", "var-2=o=p", "zz=1", "m::r1",
          "m::n::r1", "m::n", "m::", "::m", "m:::r1", "m:r1", "x::y", "n::r1", "d/x", "a b", "-", "--flag", "r1 ", "R1", "1a=2",
-         "v1=a/b", "v1=/", "var-2=../x/", "zz=p/q", "v1=.", "v1=", "v1=m::r1", "v1=r1"]
+         "v1=a/b", "v1=/", "var-2=../x/", "zz=p/q", "v1=.", "v1=", "v1=m::r1", "v1=r1", "_pv=o", "pv2=z/w", "_pv=", "_zz=1"]
 
 
 def is_override(w):
@@ -202,7 +203,7 @@ def run_case(arg):
                 groups.append({"id": m.group(1), "values": m.group(2).split("|")[:-1]})
             else:
                 groups.append({"id": "?", "values": [cmd]})
-            envs.append({k: e["env"].get(k) for k in ("v1", "var-2")})
+            envs.append({k: e["env"].get(k) for k in ("v1", "var-2", "_pv", "pv2")})
         return {"rc": p.returncode, "groups": groups, "envs": envs, "default_backticks": bts, "stderr": p.stderr.decode("utf-8", "replace"), "raw": [e["argv"][2] for e in entries]}
 
 
@@ -300,7 +301,7 @@ def run(report):
             report.failure("c05-default-evaluated", "a parameter default was evaluated %d times, expected %d (defaults are for omitted parameters only)" % (r["default_backticks"], want_bts), replay)
             continue
         # an override replaces the variable's value: observed through the exported variable in root recipes
-        ov = {"v1": "one", "var-2": "two"} if "var-2" in t.variables else {"v1": "one"}
+        ov = {"v1": "one", "var-2": "two", "_pv": "three", "pv2": "four"} if "var-2" in t.variables else {"v1": "one"}
         for k, v in m.get("overrides") or []:
             ov[k] = v
         if r["rc"] == 0 and r["groups"] == want:
